@@ -405,6 +405,14 @@ theorem dtype_raises_typeerror :
     Generated.AdaptAttrInventory.dtypeExits.all
       (fun e => e.1 != "raise" || e.2.1.startsWith "TypeError(") = true := by decide +kernel
 
+/-- **slotting_sources_covered** (tie G). `BaseVars._flatten/__iter__/__len__`, `Node.min_input/min_output`,
+    `StandardNode.min_input/min_output` and the popping loops of `Node.to_onnx`, as read from the source on
+    this run, are statement for statement the ones `Model/Emit.lean` (`flatten`, `len`, `emitSlots`,
+    `emitSlotsCustom`, `trimRev`) was written against: a `__len__` that counts declared fields, a changed
+    minimum or loop condition breaks this obligation whatever inputs are generated. -/
+theorem slotting_sources_covered :
+    Generated.AdaptAttrInventory.slotting = Emit.coveredSlotting := by decide +kernel
+
 /-- only `Attr` and `_AttrIterable` define `maybe`; no class but `AttrTensor`, `_AttrIterable`,
     `AttrTensors` (and the bases `Attr`, `_Ref`) has an `__init__` of its own -/
 theorem attr_overrides_shape :
